@@ -374,6 +374,22 @@ def fibRun (MAX : Nat) : Pool → List FibOp → Pool × List (Option Err)
     let rest := fibRun MAX r.1 os
     (rest.1, r.2 :: rest.2)
 
+/-- One `yr_re_exec` seen from the pool: it needs `need` fibers alive at once; every exit path (match, no match,
+    ERROR_TOO_MANY_RE_FIBERS) hands the live fibers back (`_yr_re_fiber_kill_all`). -/
+def releaseAll (p : Pool) : Pool := ⟨p.allocated, p.free + p.live, 0⟩
+
+def reExec (MAX : Nat) : Nat → Pool → Pool × Option Err
+  | 0, p => (releaseAll p, none)
+  | need + 1, p =>
+    match fibStep G MAX p .create with
+    | (p', none) => reExec MAX need p'
+    | (p', some e) => (releaseAll p', some e)
+
+/-- a scanner used for several scans: the pool persists, each scan is one `reExec` -/
+def reExecSeq (MAX : Nat) : Pool → List Nat → List (Option Err)
+  | _, [] => []
+  | p, n :: ns => let r := reExec G MAX n p; r.2 :: reExecSeq MAX r.1 ns
+
 /-! ## 9. Timeout cadence (exec.c:2358, scanner.c:76) -/
 
 /-- The instruction loop with `timeout > 0`: `if (++cycle == N) { read clock; …; cycle = 0; }`.
